@@ -1,5 +1,5 @@
 import CentrifugeVerif.Model.MapHubDriver
-/-! Driver for C20: the map-broker line protocol (see `CentrifugeVerif/Model/MapHubDriver.lean`). -/
+/-! Driver for C24: the map-broker line protocol (see `CentrifugeVerif/Model/MapHubDriver.lean`). -/
 open CentrifugeVerif DriverLib MapHubDriver
 
 def main : IO Unit := runState stepLine ({} : DState)
